@@ -13,13 +13,16 @@ LEVEL_TEXT = ("TLC checks the laws of the VecAlgebra specification for every vec
               "arithmetic conversions); TLC then enumerates the lattices at constant level and emits one case per operand tuple with the value expected "
               "for each element type in which the specification decides it; every case is evaluated on the real vec_t for each of the 10 element types "
               "of vec.h, through EVERY overload family the header offers (vec-vec, vec-scalar, scalar-vec, compound assignment, mixed element types, "
-              "every padding combination of 3-vectors, member / free-function forms, constructors, conversions, operator[], pointer view, streaming) "
+              "compound assignment with a right-hand side of another arithmetic type (fractional float / double values, integers outside the narrow "
+              "element types: computed in the usual-arithmetic-conversion type, only the result converted back), every padding combination of "
+              "3-vectors, member / free-function forms, constructors, conversions, operator[], pointer view, streaming) "
               "and each result component is compared exactly; rcp / normalize / length / sin / cos results recorded from the real code are validated "
               "by TLC against the specification's rationals within 2^-17 and against the scalar functions; seeded random long executions of a real "
               "vec_t register are validated by TLC against the trace specification")
 LEVEL_NOTE = ("bounded and exact-arithmetic only: operand components from {-5,-3,-2,1,2,4,7} (signed and floating-point element types) and "
               "{1,2,4,7,11,250} (unsigned), pairwise distinct and non-zero, plus derived tuples (exact quotients, shifted tuples that agree in some "
-              "components, Pythagorean tuples, the zero vector for sin / cos; comparisons and min / max also on tuples of the extreme values of each element "
+              "components, Pythagorean tuples, tuples with equal components (arg_max ties), fractional right-hand sides p/q with q in {2,4} and wide integer right-hand "
+              "sides for compound assignment, the zero vector for sin / cos; comparisons and min / max also on tuples of the extreme values of each element "
               "type - for the 32/64-bit types the extremes of TLC's integers, +-(2^31-1)); N = 2 completely, N = 3 / 4 by a covering sample in the quick tier "
               "(every tuple occurs as first and as second operand) and N = 3 completely / N = 4 by a 20-40 fold sample in the thorough tier. NOT decided: "
               "rounding of floating-point sums on non-lattice values, infinities / NaN, overflowing signed results, 32/64-bit unsigned wrap-around "
@@ -44,7 +47,7 @@ OPNAME = {"neg": "operator-(unary)", "pos": "operator+(unary)", "radd": "reduce_
           "sub": "operator-", "mul": "operator*", "div": "operator/", "mod": "operator%", "dru": "divRoundUp", "eq": "operator==", "ne": "operator!=",
           "anylt": "anyLessThan", "less": "std::less", "interp": "interpolate_uv", "conv": "convert", "splat": "vec_t(scalar)",
           "v3from2": "vec_t<T,3>(vec2,z)", "v4from22": "vec_t<T,4>(vec2,vec2)", "v4from3": "vec_t<T,4>(vec3,w)", "repad": "vec3<->vec3a",
-          "sin0": "sin", "cos0": "cos"}
+          "sin0": "sin", "cos0": "cos", "Mca": "compound assignment (right-hand side of another type)"}
 
 
 # ---------------------------------------------------------------------------------------------
@@ -135,10 +138,12 @@ def gen_jobs(quick):
         add("bin", 4, "S", 3); add("bin", 3, "S", 2); add("misc", 4, "S", 2)
         add("bin", 2, "S", 1); add("bin", 2, "U", 1); add("bin", 3, "U", 1); add("bin", 4, "U", 1)
         add("misc", 2, "S", 1); add("misc", 3, "S", 1); add("misc", 2, "U", 1); add("misc", 3, "U", 1); add("misc", 4, "U", 1)
+        add("mca", 3, "S", 1); add("mca", 4, "S", 1); add("mca", 2, "U", 1); add("mca", 3, "U", 1)
     else:
         add("bin", 3, "S", 10); add("bin", 4, "S", 10); add("bin", 3, "U", 4); add("bin", 4, "U", 3); add("misc", 4, "S", 6)
         add("misc", 3, "S", 2); add("misc", 4, "U", 3); add("bin", 2, "S", 1); add("bin", 2, "U", 1)
         add("misc", 2, "S", 1); add("misc", 2, "U", 1); add("misc", 3, "U", 1)
+        add("mca", 4, "S", 3); add("mca", 4, "U", 2); add("mca", 3, "S", 1); add("mca", 3, "U", 1); add("mca", 2, "S", 1); add("mca", 2, "U", 1)
     jobs.append(("meta", 0, "S", 0, 1))
     return jobs
 
@@ -280,15 +285,22 @@ def replay_task(t):
     path, ty, exe, uac, tag = t
     cases = [c for c in load_cases(path) if c["a"] not in ("Meta",) and decided_for(c, ty)]
     out = {"ty": ty, "path": path, "cases": len(cases), "results": 0, "mismatches": [], "fams": {}, "missing": [], "tol": [], "keys": 0,
-           "by_action": {}, "wall": 0.0, "error": None}
+           "by_action": {}, "cls_results": {}, "wall": 0.0, "error": None}
     if not cases:
         return out
+    # compound assignment with a right-hand side of another type: a wrong conversion order can divide by zero - these cases run in
+    # forked children so that a crash is attributed to its case (and reported as what it is: a failing execution)
+    isolate = 250 if any(c["a"] == "Mca" for c in cases) else 0
     res, rc, stderr, wall = adt.run_driver(exe, [[{"a": c["a"], "arg": c["arg"]}] for c in cases], "%s-%s-%d" % (tag, ty, os.getpid()),
-                                           meta={"ty": ty}, timeout=3000)
+                                           meta={"ty": ty}, timeout=3000, isolate=isolate)
     out["wall"] = wall
     keys = set()
     for i, c in enumerate(cases):
         r = res.get(i)
+        if r is not None and "crash" in r:
+            out["mismatches"].append({"case": c, "op": c["a"], "fam": "sx_" + str(c["arg"].get("u", "")), "field": "crash", "expected": "a value",
+                                      "observed": r["crash"]})
+            continue
         if r is None or "obs" not in r or not r["obs"]:
             out["error"] = "driver gave no observation for case %d of %s on %s (rc=%s): %s %s" % (i, path, ty, rc, r, stderr[-800:])
             return out
@@ -296,7 +308,7 @@ def replay_task(t):
         if "unexpected_exception" in obs:
             out["mismatches"].append({"case": c, "op": c["a"], "fam": "*", "field": "unexpected_exception", "expected": None, "observed": obs})
             continue
-        akey = c["a"] + ("/extremes" if c.get("cls") == "extremes" else "")
+        akey = c["a"] + ("/" + c["cls"] if c.get("cls") in ("extremes", "ties", "float-rhs", "wide-int-rhs") else "")
         out["by_action"][akey] = out["by_action"].get(akey, 0) + 1
         k = nontrivial_key(c)
         if k is not None:
@@ -307,6 +319,8 @@ def replay_task(t):
             continue
         n, mms, fams, missing = compare_case(c, obs, ty, uac)
         out["results"] += n
+        if c.get("cls"):
+            out["cls_results"][c["cls"]] = out["cls_results"].get(c["cls"], 0) + n
         for op, fs in fams.items():
             out["fams"].setdefault(op, set()).update(fs)
         for m in missing:
@@ -551,7 +565,7 @@ def run_all(chk, quick, rnd, pool):
 
     # collect the replays
     tol_recs, fam_seen, by_action = [], {}, {}
-    per_type = {ty: {"cases": 0, "results": 0, "extremes": 0, "driver_s": 0.0} for ty in TYPES}
+    per_type = {ty: {"cases": 0, "results": 0, "extremes": 0, "ties": 0, "float-rhs": 0, "wide-int-rhs": 0, "driver_s": 0.0} for ty in TYPES}
     total_results = 0
     for job, ty, fut in pending:
         try:
@@ -569,6 +583,8 @@ def run_all(chk, quick, rnd, pool):
         per_type[ty]["cases"] += out["cases"]
         per_type[ty]["results"] += out["results"]
         per_type[ty]["extremes"] += out["by_action"].get("Cmp/extremes", 0)
+        for k in ("ties", "float-rhs", "wide-int-rhs"):
+            per_type[ty][k] += out["cls_results"].get(k, 0)
         per_type[ty]["driver_s"] = round(per_type[ty]["driver_s"] + out["wall"], 1)
         total_results += out["results"]
         tol_recs += out["tol"]
@@ -589,7 +605,7 @@ def run_all(chk, quick, rnd, pool):
     validate_tol(chk, tol_recs, "all", chunks=3 if quick else 6)
 
     # vacuity guards: every case group, every operation of the statement, every family kind, every element type
-    chk.require_actions(["Un", "Bin", "Cmp", "Cmp/extremes", "Tern", "Conv", "Tol", "Zero"])
+    chk.require_actions(["Un", "Un/ties", "Bin", "Cmp", "Cmp/extremes", "Tern", "Conv", "Tol", "Zero", "Mca/float-rhs", "Mca/wide-int-rhs"])
     chk.require_actions(TRACE_ACTIONS)
     need_ops = ["neg", "pos", "abs", "radd", "rmul", "rmin", "rmax", "argmax", "idx", "eqself", "stream", "lprod", "length", "add", "sub", "mul", "div",
                 "mod", "min", "max", "dru", "dot", "cross", "eq", "ne", "anylt", "less", "interp", "clamp", "madd", "lerp", "splat", "conv", "v3from2",
@@ -603,8 +619,17 @@ def run_all(chk, quick, rnd, pool):
     if not any(".mx_" in f and ".ca" in f for f in fam_seen["mul"]) or not any(".mx_" in f and ".ca" not in f for f in fam_seen["mul"]):
         raise tla.InfraError("vacuity guard: mixed element type families were never compared")
     for ty in TYPES:
-        if per_type[ty]["results"] == 0 or per_type[ty]["extremes"] == 0:
-            raise tla.InfraError("vacuity guard: nothing (or no extreme operands) was compared for element type %s" % ty)
+        if per_type[ty]["results"] == 0 or per_type[ty]["extremes"] == 0 or per_type[ty]["ties"] == 0:
+            raise tla.InfraError("vacuity guard: nothing (or no extreme operands / no equal components) was compared for element type %s" % ty)
+        # compound assignment with a right-hand side of another arithmetic type: every integer element type must have been compared against
+        # a fractional floating-point right-hand side and against an integer right-hand side outside the narrow types
+        if ty not in ("f", "d") and (per_type[ty]["float-rhs"] == 0 or per_type[ty]["wide-int-rhs"] == 0):
+            raise tla.InfraError("vacuity guard: no mixed-type compound assignment was compared for element type %s" % ty)
+    for fam in ["vs.ca.sx_f", "vs.ca.sx_d.u", "vs.ca.sx_i.p", "vs.ca.sx_l", "vv.ca.sx_f.p", "vv.ca.sx_d"]:
+        if not any(fam in fam_seen.get(op, ()) for op in ("add", "sub", "mul", "div")):
+            raise tla.InfraError("vacuity guard: compound-assignment family %s was never compared" % fam)
+    if not any(f.startswith("vs.ca.sx_i") or f.startswith("vs.ca.sx_l") for f in fam_seen.get("mod", ())):
+        raise tla.InfraError("vacuity guard: %= with a wider integer right-hand side was never compared")
 
     # samples
     for path in files:
@@ -626,7 +651,8 @@ def run_all(chk, quick, rnd, pool):
                        "tuples with pairwise distinct components as first operand (N = 2, 3, 4), second operands = all tuples (N = 2; N = 3 thorough) or a "
                        "covering sample in which every tuple occurs as second operand (N = 3 quick: 4-6 per first operand, N = 4: 2 quick / 20-40 "
                        "thorough), exact-quotient tuples, comparison tuples for every pattern of {<,=,>}^N, tuples of extreme values per element type (comparisons, min / max), triples + weights for madd / interpolate_uv / "
-                       "clamp / lerp, conversion tuples, Pythagorean tuples in every arrangement and sign pattern; one evaluation = one case applied to one "
+                       "clamp / lerp, conversion tuples, Pythagorean tuples in every arrangement and sign pattern, tuples with equal components, compound assignments with "
+                       "fractional floating-point and wide integer right-hand sides (every first operand N = 2, 3; every 4th for N = 4 quick); one evaluation = one case applied to one "
                        "element type (all overload families of the operation inside); distinct = distinct (case group, operands) per element type; "
                        "non-trivial = operands of a binary case not identical and not the zero vector; exhaustive refers to the N = 2 lattices (and N = 3 in "
                        "the thorough tier) - the samples for N = 3 / 4 and the recorded random executions are on top")
@@ -646,11 +672,14 @@ def do_replay(chk, path):
         uac = next(c for c in load_cases(meta_path) if c["a"] == "Meta")["exp"]["uac"]
         os.remove(meta_path)
         c, ty = rep["case"], rep["ty"]
-        res, rc, stderr, wall = adt.run_driver(exe, [[{"a": c["a"], "arg": c["arg"]}]], "c04-replay", meta={"ty": ty})
+        res, rc, stderr, wall = adt.run_driver(exe, [[{"a": c["a"], "arg": c["arg"]}]], "c04-replay", meta={"ty": ty}, isolate=1 if c["a"] == "Mca" else 0)
         r = res.get(0)
-        if r is None or not r.get("obs"):
+        if r is not None and "crash" in r:
+            mms = [{"op": c["a"], "fam": "sx_" + str(c["arg"].get("u", "")), "field": "crash", "expected": "a value", "observed": r["crash"]}]
+        elif r is None or not r.get("obs"):
             raise tla.InfraError("driver gave no observation (rc=%s): %s" % (rc, stderr[-800:]))
-        n, mms, fams, missing = compare_case(c, r["obs"][0], ty, uac)
+        else:
+            n, mms, fams, missing = compare_case(c, r["obs"][0], ty, uac)
         out = {"ty": ty, "mismatches": mms}
         for mm in mms:
             mm["case"] = c
